@@ -1204,18 +1204,18 @@ def _rename_atoms(x, rule):
     return rf(x)
 
 
-def scn_energy_order(d, sizes, steps, rank):
+def scn_energy_order(d, sizes, steps, rank, variant="real", relations=True):
     """E(ε) = H(Φ_ε(q,p)) − H(q,p) with H = −logp + ½pᵀM⁻¹p; claim E(0) = E'(0) = E''(0) = 0 modulo the smoothness
     relations ∂_k logp = g_k and ∂_k g_i = ∂_i g_k (symmetric Hessian).  Symbolic only."""
     def scn(mk):
-        env = _Env(mk, d, sizes, rank, "ufn", "real")
+        env = _Env(mk, d, sizes, rank, "ufn", variant)
         p = mk.real("p", (d,), -2.0, 2.0)
         if not mk.symbolic:
             # numeric analogue at fixed steps: E(ε)/ε³ stays bounded: |E(ε/2)| <= |E(ε)|/4 (+ tiny)
             def err(e):
                 params = env.fresh_params(env.q.clone())
                 model = _tt()["Target"](params, False)
-                integ = _integrator_class("real")("lf", steps, e)
+                integ = _integrator_class(variant)("lf", steps, e)
                 with torch.no_grad():
                     h0 = -model() + _kinetic_num(p, env.W)
                 p1 = integ(model, params, p.clone(), env.W)
@@ -1236,6 +1236,8 @@ def scn_energy_order(d, sizes, steps, rank):
         E = (-lj1 + K1) - (-lj0 + K0)
 
         def rule(name, args):
+            if not relations:   # vacuity twin: without the smoothness relations the coefficients must NOT vanish
+                return None
             # ∂_k logp = g_k ; ∂_k g_i = ∂_i g_k (canonical: k <= i) ; second derivatives of logp -> derivatives of g
             parts = name.split("_")
             base = parts[-1]
